@@ -203,8 +203,16 @@ func checkC01(c *Ctx) {
 			a.C.Refresh()
 		}
 		steps := 1 + r.Intn(4)
+		var ci int
+		fmt.Sscanf(cs.Name, "auto:%d", &ci)
+		if ci%4 == 0 {
+			// whatever the PRNG says: a directory leaves (removed, or renamed away with all
+			// its content), comes back with a file in it, and gets another file
+			p.Force, p.ForceRenameAway, steps = []int{6, 7, 0}, ci%8 == 0, 3
+			c.Count("auto_histories_with_a_directory_that_leaves_and_comes_back", 1)
+		}
 		for k := 0; k <= steps; k++ {
-			if k > 0 && chance(r, 25) {
+			if k > 0 && len(p.Force) == 0 && chance(r, 25) {
 				history = append(history, p.Relist(r, p.Protect))
 				c.Count("reconfigurations_auto", 1)
 				o, ru := withDirs(p.Conf)
